@@ -366,6 +366,11 @@ def lin(t):
             return Lin(0, {("divv", strip(t[2]), strip(t[3])): 1})
     if k == "un" and t[1] == "Not" and t[2][0] == "c":
         return Lin((~t[2][1]) & ((1 << 64) - 1))
+    if k == "numfn" and t[1] == "next_multiple_of" and len(t[2]) == 2 and t[2][1][0] == "c" and t[2][1][1] > 0:
+        # x.next_multiple_of(c) = (x + c-1) - (x + c-1) mod c   (mathematical integers; overflow is an ARITH matter)
+        c = t[2][1][1]
+        y = ("bin", "Add", t[2][0], ("c", c - 1), t[3] if len(t) > 3 else None)
+        return lin(y).add(Lin(0, {("rem", canon(y), c): 1}), -1)
     return Lin(0, {strip(t): 1})
 
 
